@@ -44,7 +44,11 @@ def run(pid, tier, seed, gens=None):
     gens = gens or [rp.GEN_OFF, None]
     bonus = 0 if quick else P["bonus"]
     for u in (P.get("quick_universes") if quick and P.get("quick_universes") else P["universes"]):
-        pp.exhaustive_part(v, u, P["invs"], gens, P["owned"], lenbonus=bonus, c01=P["c01"])
+        pp.exhaustive_part(v, u, P["invs"], gens, P["owned"], lenbonus=bonus, c01=P["c01"], nparts=8 if quick else 48)
+    if pid == "C12":
+        # failures of pack(): out-of-range / wrongly typed values, colliding positions, failing before-pack hooks
+        from lib import valuesprofile as vp
+        vp.exhaustive_part(v, "U_C12V", [], gens, {"conf_perr", "C12.phase", "C12.pack_raises_only_PacketError", "conf_pack_outcome"})
     pp.random_part(v, seed, P["nrand"][0 if quick else 1], gens, P["owned"], P["rand"], c01=P["c01"])
     v.cov["exhaustive"] = True
     v.cov["rule"] = RULE % (", ".join(P["universes"]), bonus, ", ".join(sorted(P["owned"])))
